@@ -176,9 +176,9 @@ def check_copy(g, cpath, acc, light=False):
                     break
     if light:
         return n_checks
-    # the copy attached next to its source (under the same parent): a prefix re-bound on one of the two stays there
+    # the copy attached next to its source (under the same parent): a prefix re-bound on, or removed from, one of the two stays there
     if cpath:
-        for side in ("copy", "original"):
+        for side, how in (("copy", "rebind"), ("original", "rebind"), ("copy", "remove"), ("original", "remove")):
             core.reset_store()
             T1 = build(g)
             N1 = node_at(T1, cpath)
@@ -189,16 +189,21 @@ def check_copy(g, cpath, acc, light=False):
             snap_other = gtree.snap(other)
             snap_parent = tuple(P1.nsmap.items())
             try:
-                for pf_ in list(target.nsmap)[:2] or ["p"]:
-                    target.add_namespace(pf_, "urn:rebound")
+                if how == "remove":
+                    if not target.nsmap:
+                        continue
+                    target.remove_namespace(list(target.nsmap)[0])
+                else:
+                    for pf_ in list(target.nsmap)[:2] or ["p"]:
+                        target.add_namespace(pf_, "urn:rebound")
             except Exception as e:  # noqa
-                bad("edit_raised", "edit succeeds", repr(e), edit="add_namespace_rebind", side=side, at=list(cpath))
+                bad("edit_raised", "edit succeeds", repr(e), edit="namespace_" + how, side=side, at=list(cpath))
                 continue
             n_checks += 1
             if gtree.snap(other) != snap_other or tuple(P1.nsmap.items()) != snap_parent:
                 dd = gtree.snap_diff(snap_other, gtree.snap(other)) or ([], "nsmap (parent)", snap_parent, tuple(P1.nsmap.items()))
                 bad("edit_leaks", {"other side and parent unchanged": dd[0], "field": dd[1], "value": dd[2]}, dd[3],
-                    edit="add_namespace_rebind(attached copy)", side=side, at=list(cpath), field=dd[1])
+                    edit=("add_namespace_rebind" if how == "rebind" else "remove_namespace") + "(attached copy)", side=side, at=list(cpath), field=dd[1])
     # independence: one edit at a time on either side
     copy_paths = [p for p, _ in gtree.walk(gtree.at(g, cpath))]
     tree_paths = [p for p, _ in gtree.walk(g)]
